@@ -305,6 +305,15 @@ partial def badMb (s : List Byte) : Bool :=
 
 def hasBadMbString (v : V) : Bool := anyVal (fun | .str s => badMb s | _ => false) v
 
+/-- an upper bound of the length of the saved text of a value that needs no knowledge of the format beyond: a byte of a
+    string takes at most two, a number at most 32 characters, a container 5 and one delimiter per element -/
+partial def textUpper : V → Nat
+  | .str s => 2 * s.length + 3
+  | .arr xs => 5 + (xs.toList.map (fun v => textUpper v + 1)).foldl (· + ·) 0
+  | .cls xs => 5 + (xs.toList.map (fun v => textUpper v + 1)).foldl (· + ·) 0
+  | .map ps => 5 + (ps.toList.map (fun kv => textUpper kv.1 + textUpper kv.2 + 2)).foldl (· + ·) 0
+  | _ => 32
+
 /-- verdict on one restored value -/
 def cmpRestored (what : String) (orig got : V) : List String :=
   let e := expectOf orig
@@ -414,11 +423,23 @@ def hasDupNames (live : List JVar) : Bool :=
   let ns := live.map (·.name)
   ns.eraseDups.length != ns.length
 
+def hasDupNamesL (ns : List String) : Bool := ns.eraseDups.length != ns.length
+
 def expectedAfterRestore (s : JState) (noclear : Bool) : Option (List JVar) :=
   match s.snap with
   | none => none
   | some (snap, zeros) =>
-    if snap.length != s.live.length then none else
+    if snap.map (fun v => (v.name, v.isStatic)) != s.live.map (fun v => (v.name, v.isStatic)) then
+      -- the file was written by ANOTHER program (version): matching is by name — a non-static variable takes the value
+      -- of the non-static variable of that name that got a line (text "0" only with save_zeros); everything else keeps
+      -- its live value (no-clear) or is 0 (cleared) / untouched (static)
+      if hasDupNamesL (snap.map (·.name)) ∨ hasDupNamesL (s.live.map (·.name)) then none else
+      some (s.live.map (fun lv =>
+        if lv.isStatic then lv
+        else match snap.find? (fun sv => sv.name == lv.name ∧ !sv.isStatic ∧ (zeros || !(isZeroVal (expectOf sv.val)))) with
+          | some sv => { lv with val := sv.val }
+          | none => if noclear then lv else { lv with val := .int 0 }))
+    else
     some ((s.live.zip snap).map (fun (p : JVar × JVar) =>
       let lv := p.1
       let sv := p.2
@@ -436,7 +457,11 @@ def judgeCmd (s : JState) (cmd : String) (impl : List String) : JState × List S
       | some (l, r) =>
         if l.startsWith "save " ∨ l == "save" then judgeRestored s vtxt v r
         else if l == "saveerr" then
-          (if depthOf v > maxDepth then s else s.flag [s!"save-refused {vtxt}"], r)
+          -- a refusal is right for a value nested too deep, or — with the message of the length test — when the text can
+          -- be longer than MaxStringLength at all (`textUpper`: no value whose text certainly fits may be refused)
+          let tooLong := (impl.takeWhile (· != "saveerr")).any (fun e => e.startsWith "err save_variable: the saved text is longer") ∧
+            textUpper v > maxStringLength
+          (if depthOf v > maxDepth ∨ tooLong then s else s.flag [s!"save-refused {vtxt}"], r)
         else (s.flag [s!"trace unexpected {l}"], r)
       | none => (s.flag [s!"trace missing-save {vtxt}"], [])
   | "rtl" :: fn :: args =>
@@ -470,7 +495,8 @@ def judgeCmd (s : JState) (cmd : String) (impl : List String) : JState × List S
     let vars := parts.filterMap (fun t => match t with | ["v", m, n] => some (m, n) | _ => none)
     ({ s with progs := (name, inhs, vars) :: s.progs }, impl)
   | ["useg", name] =>
-    ({ s with live := declLayout s.progs name false, snap := none }, impl)
+    -- (the snapshot of the last save stays: a later restore into this other program is judged by name)
+    ({ s with live := declLayout s.progs name false }, impl)
   | ["use", o] =>
     let lay := if o == "many" then (List.range 24).map (fun i => (⟨s!"w{i}", i % 4 == 3, .int 0⟩ : JVar)) else layout0
     ({ s with live := lay, snap := none }, impl)
@@ -509,6 +535,44 @@ def judgeCmd (s : JState) (cmd : String) (impl : List String) : JState × List S
         | _ => (s2, r2)
       | none => (s1, [])
     | none => (s.flag ["trace missing-so"], [])
+  | "sond" :: _ =>
+    -- the save path is a directory: rename() fails for real: the save must report failure and leave no temporary
+    match nextLine impl with
+    | some (l, r) =>
+      match toks l with
+      | ["so", "0", _, _, "left=0"] => (s, r)
+      | ["so", "0", _, _, _] => (s.flag [s!"tmp-left-behind after-rename-failure {l}"], r)
+      | _ => (s.flag [s!"save-reported-success-although-rename-failed {l}"], r)
+    | none => (s.flag ["trace missing-so"], [])
+  | ["cl", _] =>
+    -- a file-size limit of L bytes hits the save in the middle of a block stdio flushes: `cl` the write fails,
+    -- `ck` the process is killed there.  A save that cannot write everything reports failure and leaves the old file and
+    -- no temporary; a killed one leaves the old file; with room for everything the save succeeds.
+    -- the lines of THIS command: its header `cl n=..` and what follows up to the next header
+    let body := (impl.drop 1).takeWhile (fun l => (l.startsWith "cl " ∨ l.startsWith "ck ") ∧ !l.startsWith "cl n=")
+    let mine := impl.take 1 ++ body
+    let rest := impl.drop mine.length
+    let n : Nat := (mine.findSome? (fun l => match toks l with
+      | ["cl", x] => if x.startsWith "n=" then (x.drop 2).toString.toNat? else none
+      | _ => none)).getD 0
+    let oldOk (st : String) : Bool := st == "old" ∨ st == "both" ∨ (st == "none" ∧ !s.hasFile)
+    let vs := mine.foldl (fun acc l =>
+      match toks l with
+      | [_, x] => if x.startsWith "n=" then acc else acc ++ [s!"trace unexpected {l}"]
+      | [c, L, "killed", st, _] =>
+        if c != "ck" then acc ++ [s!"trace unexpected {l}"]
+        else if oldOk st then acc else acc ++ [s!"atomic-save-file-{st} killed-at-size-limit {L}"]
+      | [_, L, ret, st, tmpf] =>
+        if tmpf != "tmp=0" then acc ++ [s!"tmp-left-behind at-size-limit {L} {ret}"]
+        else if ret == "ret=1" then
+          (if L.toNat?.getD 0 < n then acc ++ [s!"save-reported-success-beyond-size-limit {L} of {n}"]
+           else if st == "new" ∨ st == "both" then acc else acc ++ [s!"atomic-save-file-{st} at-size-limit {L} {ret}"])
+        else if oldOk st then
+          (if L.toNat?.getD 0 ≥ n then acc ++ [s!"save-failed-within-size-limit {L} of {n}"] else acc)
+        else acc ++ [s!"atomic-save-file-{st} at-size-limit {L} {ret}"]
+      | [_, L, "childcrash"] => acc ++ [s!"memory childcrash at-size-limit {L}"]
+      | _ => acc ++ [s!"trace unexpected {l}"]) []
+    (s.flag vs, rest)
   | "wf" :: _ => ({ s with snap := none, hasFile := true }, impl)
   | ["rm"] => ({ s with snap := none, hasFile := false }, impl)
   | ["rox", _, ext] =>
